@@ -131,7 +131,7 @@ impl ExcHandler {
     //@  ensures r == (self.finally_ip == self.catch_ip)
     //@end
 }
-//@struct file=yarel/src/object.rs name=ObjFiber keepfields=stack,frames,exc_handlers,return_value,pending_exception,return_ip,return_handler_count,error_ip map "Stack<Value, STACK_MAX>" => "StackS" map "*const u8" => "usize"
+//@struct file=yarel/src/object.rs name=ObjFiber keepfields=stack,frames,exc_handlers,return_value,pending_exception,return_ip,return_handler_count,return_frame_count,error_ip map "Stack<Value, STACK_MAX>" => "StackS" map "*const u8" => "usize"
 
 impl ObjFiber {
     // Every installed handler refers to heights that still exist, and inner handlers were installed at heights not
@@ -430,6 +430,7 @@ impl Vm {
     //@  ensures final(self).fib.stack.view == old(self).fib.stack.view.take(old(self).fib.exc_handlers@.last().init_stack_size as int)
     //@  ensures final(self).fib.return_ip == Some(old(self).ip) && final(self).fib.return_value == old(self).fib.stack.view.last()
     //@  ensures @parked_return_remembers_the_handlers_outside_its_finally_block final(self).fib.return_handler_count == final(self).fib.exc_handlers@.len()
+    //@  ensures @parked_return_remembers_the_frame_it_belongs_to final(self).fib.return_frame_count == old(self).fib.frames@.len()
     //@  ensures final(self).ip == old(self).fib.exc_handlers@.last().finally_ip, final(self).fib.frames == old(self).fib.frames
     //@  ensures final(self).fib.handlers_ok()
     //@end
